@@ -125,6 +125,22 @@ def neutral_rewrites(pkg):
         if d.kind == "record" and not d.tparams:
             d.computed = [("calc%d" % i, fn) for i, (fn, ft) in enumerate(d.fields) if ft[0] == "prim" and ft[1] in ("int32", "float32", "int64")][:2]
     out.append(("computed-fields", files_of(p)))
+    # computed fields that name types nothing else uses (conversion targets, switch patterns): these types are "unrelated
+    # definitions" plus "computed fields", so the schema must not mention them; compared with the package that has the two
+    # aliases but no computed fields the text must be identical as well
+    p = copy.deepcopy(pkg)
+    p.defs.append(Alias("OnlyInComputed", P("float64")))
+    p.defs.append(Alias("OnlyInPattern", P("float32")))
+    for d in p.defs:
+        if d.kind == "record" and not d.tparams:
+            comp = []
+            for i, (fn, ft) in enumerate(d.fields):
+                if ft[0] == "prim" and ft[1] in ("int32", "float32", "int64"):
+                    comp.append(("conv%d" % i, "%s as OnlyInComputed" % fn))
+                if ft[0] == "opt" and ft[1] == P("float32"):
+                    comp.append(("pat%d" % i, ["!switch %s:" % fn, "  OnlyInPattern v: v", "  _: 0"]))
+            d.computed = comp[:4]
+    out.append(("computed-fields-naming-other-types", files_of(p)))
     # a listed previous version (which differs: one more optional field, one more trailing optional step) is not part of
     # "the protocol and the named types it transitively uses": the current schema must not depend on its presence
     p = copy.deepcopy(pkg)
